@@ -186,9 +186,13 @@ class DataPath:
 
         obj = cls.from_part_specs(*spec_val)
 
+        modifiers = [i.name.lower() for i in DataPathDatumType if i.value]
+        modifiers += [i.name.lower() for i in DataPathMultiType if i.value]
         for i in spec_key_split[1:]:
             i = DATUM_TYPE_MULTI_TYPE_LOOKUP.get(i, i)
             try:
+                if i not in modifiers:  # (and not just any attribute of the path)
+                    raise AttributeError(i)
                 obj = getattr(obj, i)()
             except AttributeError:
                 raise MalformedDataPathSpec(
